@@ -1,5 +1,5 @@
 import CollectionsC.Properties.C01Sized
-import CollectionsC.Proofs.ArraySizedGeometric
+import CollectionsC.Proofs.ArraySized9
 /-! # C20 (sized array part) — growth is geometric and the capacity invariants always hold
 
 Statements only.  `Inv` is preserved by every call (`C01Sized.C01_sized`), so its conjuncts hold in
@@ -47,21 +47,34 @@ theorem trim_minimum (a : ArraySized) (m : Mem) (h : a.Inv) :
   · exact ⟨fun _ => ⟨h4, h2.2.2.1, h3⟩, fun hh => absurd h1 hh⟩
   · exact ⟨(fun hh => by rw [h1] at hh; cases hh), fun _ => h2⟩
 
-/-- **appends_realloc_log**: with a growth function that at least doubles (the default factor 2),
-appending any `n` records to an array holding `size` records — under any refusal schedule — performs
-at most `log2 (size + n) + 1` successful allocator calls (counted on the array's own triple), whatever the initial capacity ≥ 1.
-The hypothesis is satisfiable (`grow := fun c => 2 * c`, see the `example`s below); beyond the size
-limit the model refuses with `CC_ERR_MAX_CAPACITY` without allocating, so the bound still holds.
-Expansion factors in (1, 2) and the `capacity + 1` fallback are covered by
-`appends_realloc_geometric` below. -/
+/-- **appends_realloc_log**: if the growth function at least doubles **every capacity below the final
+size** (`1 ≤ c < size + n → 2c ≤ grow c`), appending any `n` records to an array holding `size` records —
+under any refusal schedule — performs at most `log2 (size + n) + 1` successful allocator calls (counted
+on the array's own triple), whatever the initial capacity ≥ 1.  The hypothesis speaks of the capacities
+that occur only: no `size_t`-valued function doubles *every* `c`, and the shipped
+`(size_t)((float) c * 2.0f)` doubles exactly as long as `c` is representable as `float` (`c ≤ 2^24`; see
+the header of `C20Array.lean`) — for larger arrays use `appends_realloc_geometric` with `k = 2`. -/
 theorem appends_realloc_log (a : ArraySized) (xs : List (Buf Nat)) (m : Mem) (h : a.Inv)
-    (hx : ∀ x ∈ xs, x.length = a.dataLen) (hd : ∀ c, 2 * c ≤ a.grow c) :
+    (hx : ∀ x ∈ xs, x.length = a.dataLen) (hd : ∀ c, 1 ≤ c → c < a.size + xs.length → 2 * c ≤ a.grow c)
+    (hl : a.size + xs.length ≤ CC_MAX_ELEMENTS / 2) :
     cnt (a.addAll xs m).2 a.triple - cnt m a.triple ≤ Nat.log2 (a.size + xs.length) + 1 :=
-  addAll_realloc_log a xs m h hx hd
+  addAll_realloc_log_below a xs m h hx hd hl
+
+/-- the capacity process behind it: `k ≥ 1` re-allocations during `n` appends force
+`2^(k-1) * capacity ≤ size + n - 1` (the potential of `CC.Growth.appends_spec`) -/
+theorem appends_doubling (a : ArraySized) (xs : List (Buf Nat)) (m : Mem) (h : a.Inv)
+    (hx : ∀ x ∈ xs, x.length = a.dataLen) (hd : ∀ c, 1 ≤ c → c < a.size + xs.length → 2 * c ≤ a.grow c)
+    (hl : a.size + xs.length ≤ CC_MAX_ELEMENTS / 2) :
+    (a.addAll xs m).1.Inv ∧
+    (1 ≤ cnt (a.addAll xs m).2 a.triple - cnt m a.triple →
+      2 ^ (cnt (a.addAll xs m).2 a.triple - cnt m a.triple - 1) * a.capacity ≤ a.size + xs.length - 1) :=
+  ⟨(addAll_doubling_below xs a m h hx hd hl).1, (addAll_doubling_below xs a m h hx hd hl).2.2⟩
 
 /-- **appends_realloc_geometric**: every expansion factor `≥ 1 + 1/k` — a growth function that
 multiplies every capacity below the final size by at least that much (`c + c / k ≤ grow c`; `k = 2`
-for the factor 1.5, `k = 4` for 1.25, `k = 10` for 1.1), falling back to `capacity + 1` where the
+for the factor 1.5, `k = 4` for 1.25, `k = 10` for 1.1 *as real factors*; the shipped `float` product
+loses up to `c / 2^24` above `c = 2^24`, so for huge arrays take the next `k`: the hypothesis is about
+the function, the reading for a given float factor is an assumption), falling back to `capacity + 1` where the
 product makes no progress — costs at most `2k · (log2 (size + n) + 2)` successful allocator calls on
 `n` appends, for every refusal schedule and either allocator triple (below 2^63 records) -/
 theorem appends_realloc_geometric (k : Nat) (hk : 1 ≤ k) (a : ArraySized) (xs : List (Buf Nat)) (m : Mem)
@@ -82,15 +95,6 @@ theorem appends_capacity_chain (a : ArraySized) (xs : List (Buf Nat)) (m : Mem) 
   obtain ⟨r, h1, h2, h3, h4⟩ := addAll_chain xs a m h hx hl
   exact ⟨r, h1, h2, h3, h4.2.2.1⟩
 
-/-- the capacity process behind it: under doubling, `k ≥ 1` re-allocations during `n` appends force
-`2^(k-1) * capacity ≤ size + n - 1` (the same potential as `CC.Growth.appends_spec`) -/
-theorem appends_doubling (a : ArraySized) (xs : List (Buf Nat)) (m : Mem) (h : a.Inv)
-    (hx : ∀ x ∈ xs, x.length = a.dataLen) (hd : ∀ c, 2 * c ≤ a.grow c) :
-    (a.addAll xs m).1.Inv ∧
-    (1 ≤ cnt (a.addAll xs m).2 a.triple - cnt m a.triple →
-      2 ^ (cnt (a.addAll xs m).2 a.triple - cnt m a.triple - 1) * a.capacity ≤ a.size + xs.length - 1) :=
-  ⟨(addAll_doubling xs a m h hx hd).1, (addAll_doubling xs a m h hx hd).2.2⟩
-
 /-- no byte-count wrap: a growth whose buffer would exceed `CC_MAX_ELEMENTS` bytes is refused with
 `CC_ERR_MAX_CAPACITY` before anything is allocated (A10) -/
 theorem growth_no_byte_wrap (a : ArraySized) (m : Mem) (h : a.Inv) :
@@ -101,7 +105,7 @@ theorem growth_no_byte_wrap (a : ArraySized) (m : Mem) (h : a.Inv) :
 
 /-! Non-vacuity: the default factor 2 satisfies the doubling hypothesis, on a concrete state, and 5
 appends from capacity 1 perform 3 allocations (`log2 (1 + 5) + 1 = 3`). -/
-example : ∀ c, 2 * c ≤ (fun c => 2 * c) c := fun _ => Nat.le_refl _
+example : ∀ c, 1 ≤ c → c < 1000 → 2 * c ≤ (fun c => min (2 * c) (2 ^ 63)) c := by intro c _ h2; simp only; omega
 example :
     let a : ArraySized := { dataLen := 1, size := 1, capacity := 1, grow := fun c => 2 * c, buf := [7] }
     a.Inv ∧ (a.addAll [[1], [2], [3], [4], [5]] { live := 2 }).2.nalloc = 3 ∧
